@@ -205,6 +205,8 @@ class Sim:
 
     def ack_one(self, k, pid):
         pid %= 65536
+        if k == 6:
+            k = 2                              # PUBREC with a failure reason code: a PUBREC for the sink layer
         if self.io != 0 or k == 0 or k > 5:
             return
         if pid == 0:
@@ -623,6 +625,8 @@ def choices_small(s, ntasks, kinds, role, create=False):
         if s.inflight:
             i, _, tp = s.inflight[0]
             ch.append([4, tp, i])                              # the expected acknowledgement
+            if tp == 2:
+                ch.append([4, 6, i])                           # .. as a PUBREC refusing the publish
             ch.append([4, 1 if tp != 1 else 2, i])             # wrong kind
             if len(s.inflight) > 1:
                 j, _, tq = s.inflight[1]
@@ -838,6 +842,8 @@ def qos2_orders(rng, ver, role=0, count=200):
             if s.io == 0 and s.inflight:
                 i, _, tp = s.inflight[0]
                 cand += [[4, tp, i]] * 3
+                if tp == 2:
+                    cand += [[4, 6, i]]
                 if len(s.inflight) > 1 and rng.random() < 0.3:
                     j, _, tq = s.inflight[rng.randrange(1, len(s.inflight))]
                     cand.append([4, tq, j])
